@@ -50,6 +50,17 @@ CHECKS = {
         "socket-level part. Trusted: harness concretiser and buffer bound formula.",
    technique="TLA+ spec (Engine/Script/Wire.tla) + TLC; behaviours and mutated variants replayed on the real engine/decoders",
    design_ref="DESIGN.md 4.1-4.2, 5 (C07)"),
+ "C08": dict(
+   text="TLC checks Rpq.tla exhaustively (one action per atomic operation of send/try_send/try_send_batch/pop/try_pop, "
+        "cancellation, deregistration; 2-3 pipes, capacity 1-2, 1-2 consumers): AtMostOneToken, NoLostToken, NoUnderflow, Fifo, "
+        "NoGap, NoStuck and liveness Live. The real ReadyPipeQueue runs under a controlled scheduler (verif_point hooks between the "
+        "atomic steps): TLC-simulated schedules are replayed step by step with the real counters compared after every step, and "
+        "seeded random schedules are recorded and validated by TLC against Rpq's actions (Trace_Rpq). Verdict on the real outcome: "
+        "every accepted item dequeued exactly once in order, nobody asleep while an item is queued.",
+   note="Grain of atomicity = code between two hooks; weak-memory effects below that are not explored; fibre channels trusted; "
+        "ready-list capacity >= pipes as the code requires.",
+   technique="TLA+ spec (Rpq.tla) + TLC incl. liveness; controlled-scheduler replay of TLC schedules on the real queue; TLC trace validation of recorded real schedules",
+   design_ref="DESIGN.md 2.1 (B2), 4.4, 5 (C08)"),
 }
 
 NA_DEFAULT = "check not built yet (construction in progress; see DESIGN.md section 10)"
